@@ -160,6 +160,9 @@ def make_osutils(fs, base_cls):
     class FakeOSUtils(base_cls):
         def get_file_size(self, filename):
             fs.sched.point(None, 'fs.stat')
+            exc = fs.faults.visit('fs.stat', filename)
+            if exc is not None:
+                raise exc
             if filename not in fs.files:
                 raise FileNotFoundError(2, 'No such file', filename)
             return len(fs.files[filename])
@@ -277,6 +280,30 @@ class SeekableSource(UserSource):
 
     def seekable(self):
         return True
+
+
+class PlainSeekableSource:
+    """A seekable file-like object that is not derived from io.IOBase: it has
+    read/seek/tell but neither seekable() nor readable()."""
+
+    def __init__(self, sched, trace, faults, data, start, tidx):
+        self._inner = SeekableSource(sched, trace, faults, data, start, tidx)
+
+    def read(self, n=-1):
+        return self._inner.read(n)
+
+    def seek(self, where, whence=0):
+        return self._inner.seek(where, whence)
+
+    def tell(self):
+        return self._inner.tell()
+
+    def close(self):
+        pass
+
+    @property
+    def nread(self):
+        return self._inner.nread
 
 
 class NonSeekableSource(UserSource):
